@@ -190,7 +190,14 @@ func appendSetHashBytes(val Value, buf *bytes.Buffer, marks ValueMarks) {
 			buf.WriteString(bf.String())
 			return
 		}
-		buf.WriteString(val.v.(*big.Float).String())
+		bf := val.v.(*big.Float)
+		if bf.Sign() == 0 {
+			// Negative zero is equal to positive zero, so the two must
+			// also hash alike or a set could hold both of them.
+			buf.WriteString("0")
+			return
+		}
+		buf.WriteString(bf.String())
 		return
 	case Bool:
 		if val.v.(bool) {
